@@ -405,11 +405,14 @@ def run(res):
   ]
   # --- regenerate the builtin class table from pytype's loaded stubs (fail closed)
   t_start = time.time()
+  drift = []
   common.bootstrap_pytype()
   try:
     tbl = c02_table.build()
     common.write_if_changed(GEN_V, c02_table.render_coq(tbl))
-    res.obligation("translate:builtins.pytd/typing.pytd->Generated/C02_Builtins.v", True)
+    res.obligation("translate:builtins.pytd/typing.pytd->Generated/C02_Builtins.v", not tbl.get("compat_error"),
+                   tbl.get("compat_error") or "")
+    drift = c02_table.compat_drift(tbl)
   except c02_table.TranslateError as e:
     res.obligation("translate:builtins.pytd/typing.pytd->Generated/C02_Builtins.v", False, str(e))
     if not os.path.exists(GEN_V):
@@ -425,6 +428,16 @@ def run(res):
   batches = []          # (name, hier, pairs)
   for name, hier, pairs in load_corpus():
     batches.append(("corpus:" + name, hier, pairs))
+  if drift:
+    # the compat (promotion) pairs of the live matcher differ from the ones the model was proved against:
+    # look for a concrete failing input at exactly those promotions, before anything else
+    tp = []
+    for pair in drift:
+      tp += G.compat_targets(pair)
+    hier0 = G.Hier.default()
+    for i in range(0, len(tp), BATCH):
+      batches.append(("compat-drift%d" % (i // BATCH), hier0, tp[i:i + BATCH]))
+    res.extra["compat_drift"] = {"pairs": [list(p) for p in drift], "targeted_pairs": len(tp)}
   n_rand = 2500 if thorough else 500
   n_near = 1500 if thorough else 500
   nm_stats = {}
